@@ -516,3 +516,31 @@ def _round8(model: Model, rep: Report) -> None:
     from .c20 import _getrange_clamp
 
     _getrange_clamp(model, rep, "C08-R15")
+
+
+def _children_first(model: Model, rep: Report) -> None:
+    """C08-R18: a container without glyphs of its own still has children (figures) with glyphs of theirs: the recursion into the
+    children comes before every way out of LTLayoutContainer.analyze.  Behind `if not textobjs: return` a page whose text lives
+    in form XObjects only leaves its figures unanalysed (loose LTChar items, no lines, no boxes)."""
+    r = rep.rule("C08-R18", "ORDER", "LTLayoutContainer.analyze recurses into the non-glyph children before any return: no way out of the function precedes the loop that analyses them", 1)
+    f = model.func("pdfminer.layout.LTLayoutContainer.analyze")
+    body = list(f.node.body)
+    idx_loop = None
+    for i, st in enumerate(body):
+        if isinstance(st, ast.For) and any(isinstance(c, ast.Call) and isinstance(c.func, ast.Attribute) and c.func.attr == "analyze" for c in ast.walk(st)):
+            idx_loop = i
+            break
+    if idx_loop is None:
+        raise AnchorMissing("LTLayoutContainer.analyze: loop analysing the children not found")
+    early = [st for st in body[:idx_loop] if any(isinstance(x, (ast.Return, ast.Raise)) for x in ast.walk(st))]
+    loop = body[idx_loop]
+    src = "".join(unparse(loop.iter).split())
+    r.check(not early, site(f, early[0] if early else loop), f.qualname, f"`for ... in {src}: ....analyze(laparams)` precedes every return", why=f"`{unparse(early[0]).splitlines()[0] if early else ''}` leaves the function before the children are analysed: a figure inside a container that has no glyph of its own is never laid out")
+
+
+_run_before_r18 = run
+
+
+def run(model: Model, rep: Report) -> None:  # noqa: F811
+    _run_before_r18(model, rep)
+    _children_first(model, rep)
